@@ -301,7 +301,8 @@ def lookupIn (mods : List (Bytes × List Bytes)) (name : Bytes) : Option Nat :=
     match mods with
     | [] => none
     | m0 :: _ =>
-      if p.isEmpty || p == m0.1 then pick 0 n
+      if p.isEmpty then none            -- ly_resolve_prefix: LY_CHECK_ARG_RET(ctx, prefix, prefix_len, NULL)
+      else if p == m0.1 then pick 0 n
       else match (mods.drop 1).findIdx? (fun m => m.1 == p) with
         | some i => pick (i + 1) n
         | none => none
